@@ -17,7 +17,7 @@ use crate::engine::*;
 use crate::gens;
 use crate::props::c08;
 use crate::props::c09::{self, Edit};
-use crate::refmodel::{self as model, PwParams, Ver};
+use crate::refmodel::{self as model, Ver};
 use crate::texttypes;
 use crate::util::{b64_decode, b64_encode, catch, hexser, panic_site};
 
@@ -98,14 +98,38 @@ fn input_strategy() -> impl Strategy<Value = Input> {
 
 /// PBKW blobs whose cost parameters exceed the stated budget are resource exhaustion, not covered
 fn pbkw_within_budget(ver: Ver, text: &str, mem_budget: u64) -> bool {
-    let body = text.rfind('.').map(|i| &text[i + 1..]).unwrap_or("");
-    let Some(blob) = b64_decode(body) else { return true };
-    match model::pbkw_split_blob(ver, &blob) {
-        Err(_) => true,
-        Ok(p) => match p.params {
-            PwParams::Pbkdf2 { iterations } => iterations <= 10_000,
-            PwParams::Argon2id { mem_bytes, time, para } => mem_bytes <= mem_budget && time <= 3 && para <= 64,
-        },
+    // the body is everything after the two-dot header ("kN.local-pw."), as the parser sees it
+    let body = text.match_indices('.').nth(1).map(|(i, _)| &text[i + 1..]).unwrap_or("");
+    // a body the strict reference decoder refuses but the parser accepted: cost unknown, do not run the KDF
+    let Some(blob) = b64_decode(body) else { return false };
+    let sl = model::pbkw_salt_len(ver);
+    let pl = if ver.nist() { 4 } else { 16 };
+    if blob.len() < sl + pl {
+        return true; // no parameter field to read: rejected before any KDF
+    }
+    let p = &blob[sl..sl + pl];
+    if ver.nist() {
+        u32::from_be_bytes(p.try_into().unwrap()) <= 10_000
+    } else {
+        u64::from_be_bytes(p[..8].try_into().unwrap()) <= mem_budget && u32::from_be_bytes(p[8..12].try_into().unwrap()) <= 3 && u32::from_be_bytes(p[12..].try_into().unwrap()) <= 64
+    }
+}
+
+/// the cost parameters a blob carries, read from its prefix alone (what `params()` returns even
+/// for blobs too short to unwrap), within the stated budget?
+fn pbkw_params_within_budget(ver: Ver, text: &str, mem_budget: u64) -> bool {
+    let body = text.match_indices('.').nth(1).map(|(i, _)| &text[i + 1..]).unwrap_or("");
+    let Some(blob) = b64_decode(body) else { return false };
+    let sl = model::pbkw_salt_len(ver);
+    let pl = if ver.nist() { 4 } else { 16 };
+    if blob.len() < sl + pl {
+        return false;
+    }
+    let p = &blob[sl..sl + pl];
+    if ver.nist() {
+        u32::from_be_bytes(p.try_into().unwrap()) <= 10_000
+    } else {
+        u64::from_be_bytes(p[..8].try_into().unwrap()) <= mem_budget && u32::from_be_bytes(p[8..12].try_into().unwrap()) <= 3 && u32::from_be_bytes(p[12..].try_into().unwrap()) <= 64
     }
 }
 
@@ -241,7 +265,17 @@ fn exercise_string<B: Backend>(fx: &Fx<B>, s: &str, st: &mut Vec<&'static str>) 
             if let Ok(w) = s.parse::<PasswordWrappedKey<V<B>, $K>>() {
                 st.push("pw-parsed");
                 let _ = w.to_string();
-                let _ = w.params().is_ok();
+                let params = w.params();
+                // parameters read from a parsed blob are the only way to choose non-default costs:
+                // wrapping with them returns Ok or Err
+                if let Ok(p) = &params {
+                    if pbkw_params_within_budget(B::VER, s, fx.mem_budget) {
+                        st.push("pw-rewrapped-with-parsed-params");
+                        if let Ok(again) = fx.lk.clone().password_wrap_with_params(b"correct horse", p) {
+                            let _ = again.to_string();
+                        }
+                    }
+                }
                 if pbkw_within_budget(B::VER, s, fx.mem_budget) {
                     st.push("pw-kdf-ran");
                     if w.unwrap(b"correct horse").is_ok() {
